@@ -34,6 +34,32 @@ func (w *World) emit(sender *Node, to int, bcast bool, data []byte) {
 		return
 	}
 	m.Label = "byz:pass"
+	if b.truncVec != nil && (m.Kind == "share" || m.Kind == "vec") && !m.Inject {
+		// truncated-vector attack: first k points of a lower-degree dealing, then an undecodable
+		// point, then padding; every share matches the truncated polynomial
+		if m.Kind == "share" {
+			if s, ok := b.truncShares[to]; ok {
+				m.Data = append([]byte{tagShare}, s...)
+				m.Poly, m.Idx, m.Label = "T", to, "byz:truncated-attack:share"
+			}
+		} else {
+			pl := append([]byte(nil), b.truncVec...)
+			bad := curve.G2OffCurve(w.c.Sub("trunc.rnd"))
+			if w.c.Bool(1, 2, "trunc.badkind") {
+				bad = append([]byte(nil), m.Data[1:97]...)
+				bad[0] &^= 0x80 // compression bit cleared
+			}
+			pl = append(pl, bad...)
+			for len(pl) < 96*(w.t+1) {
+				pl = append(pl, m.Data[1:97]...)
+			}
+			m.Data = append([]byte{tagVec}, pl[:96*(w.t+1)]...)
+			m.Poly, m.Well, m.Shape, m.Label = "X", false, false, "byz:truncated-attack:vector"
+		}
+		w.fault("byz.truncated_attack." + m.Kind)
+		w.sendByz(b, m)
+		return
+	}
 	action := 0
 	if w.faultBudget > 0 && w.c.Bool(w.pFault, 16, "byz.fault?") {
 		action = 1 + w.c.Choose(5, "byz.action")
@@ -148,7 +174,18 @@ func (w *World) corrupt(b *Byz, m *Msg) {
 		if np > 0 {
 			pos = c.Choose(np, "corrupt.vec.pos")
 		}
-		switch pick(c, 11, "corrupt.vec") {
+		switch pick(c, 12, "corrupt.vec") {
+		case 11:
+			// a genuine G2 point plus a point of small prime order: on the curve, outside G2
+			if np > 0 {
+				if enc, err := curve.G2PlusTorsion(pl[96*pos:96*pos+96], c.Choose(5, "corrupt.vec.torsion")); err == nil {
+					copy(pl[96*pos:], enc)
+					how = "G2+smallorder"
+					break
+				}
+			}
+			copy(pl[96*pos:], curve.G2NonSubgroup(rnd))
+			how = "notinG2"
 		case 0:
 			pl, how = nil, "tagonly"
 		case 1:
